@@ -185,6 +185,9 @@ func (s *gState) cycleSkipDecoders(i int) {
 			s.fail("concurrent-skipdecoder-bytes", i, "ReaderSkipDecoder value %d differs (err=%v, first diff %d of %d)", k, err, firstDiff(out, encs[k]), len(encs[k]))
 			break
 		}
+		if s.r.Intn(3) == 0 {
+			rd.Grow(1 + s.r.Intn(5000)) // exported; must not hand the outstanding result's buffer to other goroutines
+		}
 		runtime.Gosched()
 		if !bytes.Equal(out, encs[k]) {
 			s.fail("concurrent-skipdecoder-bytes", i, "ReaderSkipDecoder result %d changed under us before the next Next call (foreign bytes at %d)", k, firstDiff(out, encs[k]))
